@@ -68,7 +68,7 @@ func cmdVerify(args []string) int {
 		x := sym.NewExec(p.Prog, p.Specs)
 		t0 := time.Now()
 		var rep *sym.FuncReport
-		if strings.HasPrefix(name, "lemma:") {
+		if strings.HasPrefix(name, "lemma:") || strings.HasPrefix(name, "writers:") {
 			path := load.ModulePath + "/" + rel
 			db := p.Specs[path]
 			if db == nil || db.Funcs[name] == nil {
@@ -76,7 +76,11 @@ func cmdVerify(args []string) int {
 				bad++
 				continue
 			}
-			rep = x.VerifyLemma(p.Pkgs[path], db.Funcs[name])
+			if strings.HasPrefix(name, "writers:") {
+				rep = x.VerifyWriters(p.Pkgs[path], db.Funcs[name])
+			} else {
+				rep = x.VerifyLemma(p.Pkgs[path], db.Funcs[name])
+			}
 		} else {
 			fn := p.Func(rel, name)
 			if fn == nil {
